@@ -9,7 +9,7 @@
    Gen/LowerRules.v, regenerated from pyrtl/passes.py on every run. *)
 From PyRTL Require Import Pass.Lower Pass.LowerHyps Pass.RewriteSound Pass.GateSound Pass.LowerSound
   Pass.LowerPost Pass.LowerTheorems Pass.LowerCompose Pass.Stable Pass.FanoutPost Pass.DcoSound
-  Pass.FanoutSound Gen.LowerRules Netlist.Sanity.
+  Pass.FanoutSound Pass.LowerIdem Gen.LowerRules Netlist.Sanity.
 
 (* ===== (2) the generic lemma ===== *)
 (* A rule that, net by net, yields a sub-netlist computing on the old
@@ -149,6 +149,33 @@ Theorem C09_rule_pass_sequences_preserve_sane : forall ps nl,
 Proof. exact rule_pass_sequences_preserve_sane. Qed.
 Print Assumptions C09_rule_pass_sequences_preserve_sane.
 
+(* ===== a pass applied TWICE =====
+   nand_synth, and_inverter_synth, two_way_concat and direct_connect_outputs are
+   idempotent: the second run leaves the result of the first exactly as it is.
+   (one_bit_selects and two_way_fanout are not idempotent in the code -- every
+   select is rewritten again, a buffer with two readers gets a tree again; the
+   general preservation and postcondition theorems cover their second run, see
+   C09_example_twice.) *)
+Theorem C09_nand_synth_idempotent : forall nl,
+  pre_nand_synth nl = true -> nand_synth (nand_synth nl) = nand_synth nl.
+Proof. exact nand_synth_idem. Qed.
+Print Assumptions C09_nand_synth_idempotent.
+
+Theorem C09_and_inverter_synth_idempotent : forall nl,
+  pre_and_inverter_synth nl = true -> and_inverter_synth (and_inverter_synth nl) = and_inverter_synth nl.
+Proof. exact and_inverter_synth_idem. Qed.
+Print Assumptions C09_and_inverter_synth_idempotent.
+
+Theorem C09_two_way_concat_idempotent : forall nl,
+  two_way_concat (two_way_concat nl) = two_way_concat nl.
+Proof. exact two_way_concat_idem. Qed.
+Print Assumptions C09_two_way_concat_idempotent.
+
+Theorem C09_direct_connect_outputs_idempotent : forall nl,
+  sanity_block nl = true -> direct_connect_outputs (direct_connect_outputs nl) = direct_connect_outputs nl.
+Proof. exact dco_idem. Qed.
+Print Assumptions C09_direct_connect_outputs_idempotent.
+
 (* ===== the graph-edit passes preserve behaviour =====
    Shared tool: on a sequentially ordered netlist ([seq_okb]: legal arities,
    single driver, written before read) Sem.comb computes THE valuation that every
@@ -232,6 +259,22 @@ Proof.
   - intros x Hx. cbn [wires ex_nl] in Hx.
     repeat (destruct Hx as [<-|Hx]; [vm_compute; reflexivity|]). destruct Hx.
 Qed.
+
+(* the two non-idempotent passes applied twice, and fan-out / nand_synth / fan-out:
+   the netlist keeps changing, behaviour, well-formedness, postcondition and the
+   theorems' hypotheses keep holding *)
+Example C09_example_twice :
+  let f2 := two_way_fanout (two_way_fanout ex_nl) in
+  let s2 := one_bit_selects (one_bit_selects ex_nl) in
+  let fnf := two_way_fanout (nand_synth (two_way_fanout ex_nl)) in
+  (length (nets (two_way_fanout ex_nl)) <? length (nets f2))%nat = true
+  /\ (length (nets (one_bit_selects ex_nl)) <? length (nets s2))%nat = true
+  /\ ex_run f2 = ex_run ex_nl /\ ex_run s2 = ex_run ex_nl /\ ex_run fnf = ex_run ex_nl
+  /\ sanity_block f2 = true /\ sanity_block s2 = true /\ sanity_block fnf = true
+  /\ post_two_way_fanout f2 = true /\ post_one_bit_selects s2 = true /\ post_two_way_fanout fnf = true
+  /\ fanout_okb (fresh (two_way_fanout ex_nl)) (two_way_fanout ex_nl) = true
+  /\ fanout_okb (fresh (nand_synth (two_way_fanout ex_nl))) (nand_synth (two_way_fanout ex_nl)) = true.
+Proof. vm_compute. repeat split; reflexivity. Qed.
 
 (* a pass sequence in both orders, and a three-pass sequence *)
 Example C09_example_orderings :
